@@ -165,6 +165,13 @@ def oracle_tree(case):
         got = apply(rules, q)
         if got != p:
             raise Violation(f"{label}: the printed rules assign cluster {got} to {q.tolist()}, predict gives {p}\n" + "\n".join(lines[:14]))
+    # integer-typed queries (accepted by predict) must follow the same printed rules
+    Qi = np.round(Q[np.all(np.abs(Q) < 1e9, axis=1)]).astype(np.int64)
+    if len(Qi):
+        for q, p in zip(Qi, est.predict(Qi)):
+            got = apply(rules, q.astype(float))
+            if got != p:
+                raise Violation(f"{label}: the printed rules assign cluster {got} to the integer point {q.tolist()}, predict gives {p}\n" + "\n".join(lines[:14]))
     return {"nontrivial": bool(max(t.depths) >= 2 and len(used) >= 2), "classes": ["names:" + mode, f"depth:{min(max(t.depths), 4)}"]}
 
 
